@@ -18,10 +18,15 @@ def field_key(b, pl):
     return None
 
 
-def path_term(b, op):
+def path_term(b, op, depth=0):
     if op['k'] not in ('copy', 'move'):
         return '?'
     base = b.base_of(op)
+    # look through value-preserving conversions of a path (`&PathBuf -> &Path`, as_ref, as_path, clone)
+    ds = b.defs().get(base[0], [])
+    if not base[1] and len(ds) == 1 and ds[0][0] == 'call' and 'q' in ds[0][1]['callee'] and ds[0][1]['args'] and depth < 6 and \
+            callee_q(ds[0][1]).split('::')[-1] in ('deref', 'as_ref', 'as_path', 'borrow', 'clone', 'to_path_buf', 'to_owned', 'as_os_str', 'into', 'from'):
+        return path_term(b, ds[0][1]['args'][0], depth + 1)
     root = b.name(base[0])
     if base[0] == 1 and b.raw['coroutine'] and base[1]:
         # captured parameter of an async fn: name it by the debug info
@@ -155,6 +160,38 @@ def sym_eval(e, env_in):
     return '?'
 
 
+def resolved_paths(facts, cg, b, op, depth=0):
+    """path terms of an open() path operand with parameters replaced by what the callers pass (a scratch file opened in a
+    helper is named by the option it comes from, whatever the helper calls its parameter)"""
+    from ..typestate import coroutine_of
+    direct = path_term(b, op)
+    if op['k'] not in ('copy', 'move') or depth > 3:
+        return {direct}
+    base = b.base_of(op)
+    ds = b.defs().get(base[0], [])
+    if not base[1] and len(ds) == 1 and ds[0][0] == 'call' and 'q' in ds[0][1]['callee'] and ds[0][1]['args'] and \
+            callee_q(ds[0][1]).split('::')[-1] in ('deref', 'as_ref', 'as_path', 'borrow', 'clone', 'to_path_buf', 'to_owned', 'as_os_str', 'into', 'from'):
+        return resolved_paths(facts, cg, b, ds[0][1]['args'][0], depth)
+    shell, pidx = None, None
+    if b.raw['coroutine'] and base[0] == 1 and base[1]:
+        shell = facts.original.get(b.raw.get('parent') or '')
+        if shell is not None:
+            cb, pm = coroutine_of(facts, shell)
+            inv = {v: k for k, v in (pm or {}).items()}
+            pidx = inv.get(base[1][0][1])
+            rest = base[1][1:]
+    elif 1 <= base[0] <= b.arg_count and b.raw['kind'] != 'Closure':
+        shell, pidx, rest = b, base[0], base[1]
+    if shell is None or pidx is None:
+        return {direct}
+    out = set()
+    for (cbody, cbi, ct) in cg.calls_to(shell.q):
+        if pidx - 1 < len(ct['args']):
+            for r in resolved_paths(facts, cg, cbody, ct['args'][pidx - 1], depth + 1):
+                out.add(r + ''.join('.' + str(x[1]) for x in rest))
+    return out or {direct}
+
+
 def chains(b):
     """yield dict(at, inputs, table:[(assignment dict, effective flag set)], path)"""
     news = [(bi, t) for bi, t in b.calls() if 'q' in t['callee'] and is_oo(callee_q(t)) and callee_q(t).endswith('::new')]
@@ -197,6 +234,7 @@ def chains(b):
         inputs = sorted(inputs)
         table = []
         path = None
+        path_op = None
         complete = True
         for vals in itertools.product([False, True], repeat=len(inputs)):
             env_in = dict(zip(inputs, vals))
@@ -245,6 +283,7 @@ def chains(b):
                             complete = False
                     if m == 'open':
                         path = path_term(b, t['args'][1])
+                        path_op = t['args'][1]
                         done = True
                         break
                 if t['k'] == 'switch':
@@ -266,7 +305,7 @@ def chains(b):
                 complete = False
             table.append((env_in, {k for k, v in flags.items() if v is True}))
         yield {'function': b.q, 'at': nt['loc'], 'inputs': ['.'.join(i) for i in inputs], 'table': table, 'path': path,
-               'complete': complete}
+               'complete': complete, 'path_op': path_op}
 
 
 def run(facts, cg=None):
@@ -283,6 +322,9 @@ def run(facts, cg=None):
         if b.crate != 'bita':
             continue
         for ch in chains(b):
+            if ch.get('path_op') is not None and cg is not None:
+                rp = sorted(resolved_paths(facts, cg, b, ch['path_op']))
+                ch['path'] = '|'.join(rp)
             rows = []
             for env, eff in ch['table']:
                 rows.append({'flags': {('.'.join(k)): v for k, v in env.items()}, 'effective': sorted(eff)})
@@ -294,7 +336,7 @@ def run(facts, cg=None):
             writable = any(r['effective'] and ({'write', 'append', 'create', 'create_new', 'truncate'} & set(r['effective'])) for r in rows)
             if not writable:
                 continue
-            is_temp = ch['inputs'] == [] and 'temp' in (ch['path'] or '')
+            is_temp = ch['inputs'] == [] and (ch['path'] or '').split('.')[-1] != 'output'
             if b.id in compress_region:
                 # everything compress writes is produced from scratch and later read / shipped as a whole: a file opened for
                 # writing that can keep older, longer content (no truncate, no create_new) ends with stale bytes
